@@ -14,7 +14,7 @@ RULE = ("E2: breadth-first search over call histories on the real code (5 classe
         "everywhere]; depth 2, thorough adds depth 3 on the reduced alphabet); on every transition I1 (model "
         "snapshot unchanged) and I2 (bit-identical to the same call on a fresh model and fresh ratings with the same "
         "values, other ids and names; the same again with every rating carrying one id), I8 (a valid call leaves its teams / ranks / scores containers unchanged, so a "
-        "caller that re-uses them gets answers independent of the earlier call). E3: every schedule with <= b preemptions of harnesses H1-H7 (2-3 threads sharing "
+        "caller that re-uses them gets answers independent of the earlier call). E3: every schedule with <= b preemptions of harnesses H1-H8 (2-3 threads sharing "
         "one model) at source-line and opcode granularity; each thread's result must be bit-identical to its solo result. "
         "Re-entrancy: every inner call executed inside every gamma invocation of every outer rate() on the same model. "
         "Seeds: the same exploration re-run under PYTHONHASHSEED in {0,1,2^32-1,VERIF_SEED} with different rating ids; "
@@ -33,18 +33,20 @@ def e3_plan(ctx):
     plan = []
     for kind in spaces.KINDS:
         if ctx.thorough:
-            for h in ("H1", "H2", "H3", "H6"):  # ~550-800 line points: b <= 2 is ~1.5e5-3e5 executions each
+            for h in ("H1", "H2", "H3", "H6", "H8"):  # ~550-800 line points: b <= 2 is ~1.5e5-3e5 executions each
                 plan.append((h, kind, "line", 2, 48))
                 plan.append((h, kind, "opcode", 1, 4))
-            for h in ("H4", "H7"):  # ~2000 line points: b <= 2 would be ~2e6 executions per class; kept at b <= 1, both granularities
-                plan.append((h, kind, "line", 1, 2))
+            for h in ("H4", "H7"):  # ~2000 line points: unrestricted b <= 2 would be ~2e6 executions per class: b <= 1 at both
+                plan.append((h, kind, "line", 1, 2))  # granularities, b <= 2 with both preemptions inside the helper module
                 plan.append((h, kind, "opcode", 1, 12))
+                plan.append((h, kind, "line-helper", 2, 16))
             plan.append(("H5", kind, "line", 1, 8))
         else:
-            for h in ("H1", "H2", "H3", "H4", "H6", "H7"):
+            for h in ("H1", "H2", "H3", "H4", "H6", "H7", "H8"):
                 plan.append((h, kind, "line", 1, 1))
-            for h in ("H1", "H2"):
-                plan.append((h, kind, "opcode", 1, 3))
+            if kind in spaces.TM:  # b <= 2 with both preemptions inside the shared helper module (v, w, vt, wt, phi: only TM goes there)
+                plan.append(("H8", kind, "line-helper", 2, 16))
+            plan.append(("H1", kind, "opcode", 1, 3))
             plan.append(("H5", kind, "line", 1, 6))
     return plan
 
@@ -55,7 +57,13 @@ def run_e3_unit(unit, ctx):
     if h == "census":
         return acc
     mk = e3.harness(h, kind)
-    res = e3.explore(mk, gran, bound, shard=(k, parts), end_choices="serial" if (h == "H5" and not ctx.thorough) else "all")
+    helper_only = gran == "line-helper"
+    if helper_only:
+        gran = "line"
+    res = e3.explore(mk, gran, bound, shard=(k, parts), end_choices="serial" if (h == "H5" and not ctx.thorough) else "all",
+                     only_helper=helper_only)
+    if helper_only:
+        gran = "line-helper"
     n = sum(res["executions"])
     acc.evals += n
     acc.add(f"e3_executions", n)
@@ -216,7 +224,7 @@ def main(ctx, t0):
         for k in range(parts):
             units.append(("e3", h, kind, gran, bound, k, parts))
     for kind in spaces.KINDS:
-        for h in e3.HARNESSES:
+        for h in (e3.HARNESSES if ctx.thorough else ("H1", "H4", "H5", "H8")):
             units.append(("census", h, kind))
     for kind in spaces.KINDS:
         units.append(("reent", kind))
